@@ -686,11 +686,20 @@ func (c12) Run(sc *Scenario) *Verdict {
 		if xerr != nil {
 			return v.fail("resolution-error", "base %q ref %q: the catch-all store serves every URL, but: %v (requests %v)", base, ref, xerr, log.URLs())
 		}
-		if len(log.Reqs) != 1 {
-			return v.fail("request-count", "base %q ref %q: expected exactly one request for %q, got %v", base, ref, wantDoc, log.URLs())
+		// the designated document must be requested; the only other request the property leaves
+		// room for is the containing document itself (an implementation may load it eagerly)
+		got := false
+		for _, q := range log.Reqs {
+			switch {
+			case sameURL(q.URL, wantDoc):
+				got = true
+			case sameURL(q.URL, base):
+			default:
+				return v.fail("wrong-document", "base %q ref %q: RFC 3986 resolution gives %q, the loader was asked for %q", base, ref, wantDoc, q.URL)
+			}
 		}
-		if !sameURL(log.Reqs[0].URL, wantDoc) {
-			return v.fail("wrong-document", "base %q ref %q: RFC 3986 resolution gives %q, the loader was asked for %q", base, ref, wantDoc, log.Reqs[0].URL)
+		if !got {
+			return v.fail("request-count", "base %q ref %q: the designated document %q was never requested (requests: %v)", base, ref, wantDoc, log.URLs())
 		}
 	}
 	return v
